@@ -49,6 +49,7 @@ type State struct {
 	pending_ []pendingAssert        // assertions not yet discharged
 	simpMemo map[int]*Term          // memo of simp under the current known map
 	bounds   *bounds                // learned intervals
+	docs     map[int]*jsonDoc       // JSON stub documents by byte-slice object (copy on write)
 }
 
 type pendingAssert struct {
@@ -99,6 +100,7 @@ type Executor struct {
 
 	errType    types.Type
 	initHeap   []*Object
+	nInitObjs  int // objects allocated by package initialisation (globals, error values): read-only afterwards
 
 	// results
 	Paths        int
@@ -252,6 +254,7 @@ func (st *State) clone(ex *Executor) *State {
 	}
 	c.pending_ = append([]pendingAssert(nil), st.pending_...)
 	c.bounds = st.bounds.clone()
+	c.docs = st.docs
 	c.heap = append([]*Object(nil), st.heap...)
 	st.gen = ex.newGen()
 	c.gen = ex.newGen()
@@ -763,6 +766,7 @@ func (ex *Executor) RunInit(pkgs []*ssa.Package) error {
 		st.done = false
 	}
 	ex.initHeap = st.heap
+	ex.nInitObjs = len(st.heap)
 	// reset statistics collected during init
 	ex.Paths, ex.Steps = 0, 0
 	ex.Samples = nil
